@@ -233,6 +233,10 @@ def sweeps(tier, rng):
             continue
         combos.append(("fit_circuit", pyimpspec.fit_circuit, dict(circuit=parse_cdc("R(RC)(RC)"), data=data, method=m, weight=wt, max_nfev=40, num_procs=1)))
     combos.append(("fit_circuit", pyimpspec.fit_circuit, dict(circuit=parse_cdc("R(RC)"), data=small, method=["leastsq", "nelder"], weight=["unity", "boukamp"], max_nfev=30, num_procs=1)))
+    # lists of different lengths (the step total is len(method) * len(weight))
+    for ms, ws_ in ((["leastsq"], ["unity", "modulus", "boukamp"]), (["leastsq", "nelder"], ["unity", "modulus", "boukamp"]),
+                    (["leastsq", "nelder", "powell"], ["boukamp"]), (["leastsq"], "auto"), ("auto", ["unity", "proportional"])):
+        combos.append(("fit_circuit", pyimpspec.fit_circuit, dict(circuit=parse_cdc("R(RC)"), data=small, method=ms, weight=ws_, max_nfev=30, num_procs=1)))
     combos.append(("perform_zhit", pyimpspec.perform_zhit, dict(data=small, num_procs=1)))
     combos.append(("perform_kramers_kronig_test", pyimpspec.perform_kramers_kronig_test, dict(data=small, num_procs=1)))
     return combos
